@@ -1402,3 +1402,21 @@ Section ResolveProofs.
       apply INV in K. destruct K as [K|K]; [ | auto]. apply G1 in K. tauto.
   Qed.
 End ResolveProofs.
+
+(* ------------------------------------------------------------------ the concrete evaluator used by the correspondence
+   satisfies the extensionality hypothesis (so the theorems are not vacuous and apply to the evaluated cases) *)
+Lemma eval_expr_extensional : ev_extensional val expr expr_vars eval_expr.
+Proof.
+  unfold ev_extensional. fix IH 1. intros a e e' H. destruct a as [q|x|a|a b|a b|a b|l]; simpl.
+  - reflexivity.
+  - apply H. left. reflexivity.
+  - rewrite (IH a e e'); [reflexivity | exact H].
+  - rewrite (IH a e e'), (IH b e e'); [reflexivity | | ]; intros x Hx; apply H; simpl; apply in_or_app; auto.
+  - rewrite (IH a e e'), (IH b e e'); [reflexivity | | ]; intros x Hx; apply H; simpl; apply in_or_app; auto.
+  - rewrite (IH a e e'), (IH b e e'); [reflexivity | | ]; intros x Hx; apply H; simpl; apply in_or_app; auto.
+  - assert (M : map (fun x => eval_expr x e) l = map (fun x => eval_expr x e') l).
+    { simpl in H. induction l as [|a l IHl]; [reflexivity | ]. simpl. f_equal.
+      - apply IH. intros x Hx. apply H. simpl. apply in_or_app. left. exact Hx.
+      - apply IHl. intros x Hx. apply H. simpl. apply in_or_app. right. exact Hx. }
+    rewrite M. reflexivity.
+Qed.
